@@ -1,5 +1,5 @@
 import Gv.Proofs.BagAddRef
-import Gv.Proofs.BagRect3
+import Gv.Proofs.BagRect4
 /-!
 Refinement, operation by operation (C01), part 1: insertion, policies, renames, in-place residue
 edits, sorting and shuffling.
